@@ -23,6 +23,7 @@ META = {
     "trusted_base": ["RFC 8152 section 3.1 as transcribed in spec/rfc8152.py", "std str::trim, str::matches, Iterator::count, Vec::is_empty",
                      "ciborium Value data model (the decoder's input has no memory of its encoding)"],
 }
+META["decides"] += ' (As built: list-valued fields are decided on the sequence the arm contributes, however it is spelled; the decoded value is written only by the per-entry dispatch - nothing sorts or rewrites a field outside the loop; a header in protected position goes through the same decoder and is rejected for nothing else.)'
 
 DEC = "header::Header::from_cbor_value_depth"
 RESULT = "header::Header"
@@ -62,10 +63,29 @@ def check_dispatch(ctx, md, params, result_adt, rule="R-1"):
     ctx.ob(rule, "frame:outside-dispatch:%s" % result_adt, not stray,
            "the decoded %s is written only by the per-entry dispatch: nothing sorts, truncates, clears or rewrites a field before or "
            "after the loop over the map entries" % result_adt.split("::")[-1], where=fn.span, detail={"writes_outside_the_loop": stray})
+    skipped = md.skipped_entries()
+    ctx.ob(rule, "frame:every-entry-dispatched:%s" % result_adt, not skipped,
+           "every map entry is either stored or rejected: no iteration goes on to the next entry without a write to the decoded %s"
+           % result_adt.split("::")[-1], where=fn.where(skipped[0]) if skipped else fn.span,
+           detail={"continues_without_storing_at": [fn.where(b) for b in skipped]})
     listed = sorted(md.listed)
     ctx.ob(rule, "cases:%s" % result_adt, listed == sorted(params),
            "the typed labels dispatched by the %s decoder are exactly %s (found %s)" % (result_adt, sorted(params), listed), where=fn.span)
     return by_label
+
+
+def _protected_position(ctx):
+    """a header map inside a protected bstr goes through the same decoder and is rejected for nothing else (C09 R-5's
+    recogniser under this property's name)"""
+    from rules import c09
+
+    class Sub:
+        def __init__(self, ctx):
+            self.ctx, self.prog = ctx, ctx.prog
+
+        def ob(self, rule, key, ok, what, **kw):
+            return self.ctx.ob("R-3", "protected-position:" + key, ok, what, **kw)
+    c09.check_protected_bstr(Sub(ctx), "R-3")
 
 
 def _decoder_full(fn, pv, path):
@@ -88,6 +108,7 @@ def check(ctx):
         return
     pv = md.pv
     by_label = check_dispatch(ctx, md, HEADER_PARAMS, RESULT)
+    _protected_position(ctx)
 
     def sym(t):
         return md.sym(t)
